@@ -33,6 +33,7 @@
 #  include <unifex/detail/atomic_intrusive_queue.hpp>
 #  include <unifex/detail/intrusive_heap.hpp>
 #  include <unifex/detail/intrusive_queue.hpp>
+#include <unifex/detail/verif_hooks.hpp>
 
 #  include <unifex/linux/mmap_region.hpp>
 #  include <unifex/linux/monotonic_clock.hpp>
@@ -467,6 +468,7 @@ class io_uring_context::read_sender {
     }
 
     void request_stop() noexcept {
+      UNIFEX_VERIF_YIELD("io.ur.r.stop_cas");
       if (char expected = 1; !refCount_.compare_exchange_strong(
               expected, 2, std::memory_order_relaxed)) {
         // lost race with on_read_complete
@@ -505,11 +507,13 @@ class io_uring_context::read_sender {
 
     void request_stop_remote() noexcept {
       cop_.execute_ = &cancel_operation::on_schedule_stop_complete;
+      UNIFEX_VERIF_YIELD("io.ur.r.stop_sched");
       context_.schedule_remote(&cop_);
     }
 
     static void on_read_complete(operation_base* op) noexcept {
       auto& self = *static_cast<operation*>(op);
+      UNIFEX_VERIF_YIELD("io.ur.r.complete_fs");
       if (self.refCount_.fetch_sub(1, std::memory_order_acq_rel) != 1) {
         // stop callback is running, must complete the op
         return;
@@ -665,6 +669,7 @@ class io_uring_context::write_sender {
     }
 
     void request_stop() noexcept {
+      UNIFEX_VERIF_YIELD("io.ur.w.stop_cas");
       if (char expected = 1; !refCount_.compare_exchange_strong(
               expected, 2, std::memory_order_relaxed)) {
         // lost race with on_write_complete
@@ -703,11 +708,13 @@ class io_uring_context::write_sender {
 
     void request_stop_remote() noexcept {
       cop_.execute_ = &cancel_operation::on_schedule_stop_complete;
+      UNIFEX_VERIF_YIELD("io.ur.w.stop_sched");
       context_.schedule_remote(&cop_);
     }
 
     static void on_write_complete(operation_base* op) noexcept {
       auto& self = *static_cast<operation*>(op);
+      UNIFEX_VERIF_YIELD("io.ur.w.complete_fs");
       if (self.refCount_.fetch_sub(1, std::memory_order_acq_rel) != 1) {
         // stop callback is running, must complete the op
         return;
